@@ -13,6 +13,7 @@ import traceback
 
 import numpy as np
 
+from harness import core
 from harness import oracle
 from harness import par as par_mod
 from harness import tlc
@@ -26,6 +27,7 @@ VTOLS = [(1, 10), (1, 4), (1, 2), (1, 1), (1, 1), (2, 1), (2, 1), (4, 1), (9, 1)
 
 TRACE_CFG = """SPECIFICATION Spec
 """
+SEARCH_TIMEOUT_S = 150     # a search of <= 14 geos takes seconds; termination is part of C09
 
 
 # ---------------------------------------------------------------------------------------------- instances
@@ -400,7 +402,10 @@ def _outcome(inst, ids_fn, which, scale, thunk, after=None):
   """Runs thunk (a search of the real code) and projects what it returns; exceptions are outcomes."""
   projector = project_design_lite if inst.get('lite') else project_design
   try:
-    res = thunk()
+    try:
+      res = core.with_timeout(thunk, SEARCH_TIMEOUT_S)
+    except core.CallTimeout:
+      return {'status': 'timeout', 'designs': [], 'error': 'the search did not return within %d s' % SEARCH_TIMEOUT_S}
     if not isinstance(res, list):
       return {'status': 'crash', 'designs': [], 'error': 'returned %s' % type(res).__name__}
     if after is not None:
